@@ -115,9 +115,9 @@ def instant_comparisons(node: ast.AST) -> list[ast.Compare]:
 def norm_cmp(c: ast.Compare) -> tuple[str, str, str]:
     """(index-side, op, bound) with the index on the left."""
     l, r = unparse(c.left), unparse(c.comparators[0])
-    op = OPS[type(c.ops[0])]
+    op = OPS.get(type(c.ops[0]), type(c.ops[0]).__name__)
     if r.endswith("index"):
-        l, r, op = r, l, FLIP[op]
+        l, r, op = r, l, FLIP.get(op, op)
     return l, op, r
 
 
@@ -147,12 +147,12 @@ def release_mirror(prog: Program, rep: Report) -> None:
             ok = ok and strip(fwd_body, fc[0]) == strip(rev_body, rc[0])
         rep.check(rule, fi.qual, f"window filter on {unparse(fc[0].comparators[0]).split('.')[-1] if fc else '?'}: arms are mirror images", ok, what_bad=f"{detail}: under T a comparison between instants flips", what_ok=detail, loc=fi.loc(c))
     # every instant comparison outside a conditional is T-variant and unmirrored
-    allowed_exception = "self._df.index > self.start_time"  # warm-start filter: reversed warm starts are outside every property's quantifier
+    allowed_exception = ("self._df.index", ">", "self.start_time")  # warm-start filter: reversed warm starts are outside every property's quantifier
     for c in instant_comparisons(fi.node):
         if id(c) in inside:
             continue
         txt = unparse(c)
-        if txt == allowed_exception:
+        if norm_cmp(c) == allowed_exception:
             # must be under `if warm_start_file`
             continue
         rep.bad(rule, fi.qual, txt, "comparison between instants outside a time_reversal conditional: reversed runs filter the wrong side of the window", fi.loc(c))
